@@ -39,6 +39,7 @@ class Ctx:
         self.known: t.List[str] = []
         self.notes: t.List[str] = []
         self.corr: t.Dict[str, dict] = {}
+        self.impl_outputs: t.Dict[str, t.Tuple[t.Any, list]] = {}  # unit name -> (unit, [(case, implementation output text)])
         self.samples: t.List[t.Any] = []
         self.distinct: t.Set[str] = set()
         self.evaluations = 0
@@ -105,6 +106,8 @@ def run_units(ctx: Ctx, units: t.Sequence[Unit]) -> None:
             pos += 1
             i = core.run_impl(u.impl, c)
             ctx.evaluations += 1
+            if u.prop_pred is not None:
+                ctx.impl_outputs.setdefault(u.name, (u, []))[1].append((c, i))
             if i.startswith("e"):
                 st["impl_errors"][i[1:]] = st["impl_errors"].get(i[1:], 0) + 1
             sz = len(all_cases[pos - 1][1])
@@ -142,6 +145,22 @@ def run_units(ctx: Ctx, units: t.Sequence[Unit]) -> None:
                                       key=f"{u.name}:{all_cases[pos - 1][1][:80]}")
         st["disagreements"] = dis
         ctx.corr[u.name] = st
+
+
+def pred_sweep(ctx: Ctx) -> t.Optional[dict]:
+    tried = 0
+    for name, (u, pairs) in ctx.impl_outputs.items():
+        for c, i in pairs:
+            tried += 1
+            try:
+                why = u.prop_pred(c, dec(i) if not i.startswith("!") else None)
+            except Exception as exc:  # noqa: BLE001
+                why = None
+                ctx.notes.append(f"property predicate of {name} raised {type(exc).__name__} during the sweep")
+            if why:
+                return {"unit": name, "model_unit": u.model_unit, "input": enc(c), "observed_impl": i[:2000], "why": why, "tried": tried, "key": None}
+    ctx.notes.append(f"predicate sweep: the property predicate holds on all {tried} implementation outputs of this run")
+    return None
 
 
 def run_flow_semantics(ctx: Ctx) -> None:
@@ -307,6 +326,10 @@ def run_check(prop: str, tier: str, seed: int) -> int:
                     found = mod.search(ctx)
                 except Exception as exc:  # noqa: BLE001
                     ctx.notes.append(f"search raised {type(exc).__name__}: {exc}")
+            if not found:
+                # model and implementation may still agree (the model is regenerated from the changed source): evaluate the property
+                # predicate on EVERY implementation output of this run, not only on disagreements
+                found = pred_sweep(ctx)
             broken = ctx.extra.get("broken_obligations") or [{"stmt": "?", "file": "?", "msg": "?"}]
             names = ", ".join(sorted({f"{b['file']}:{b['stmt']}" for b in broken}))
             if found:
